@@ -327,8 +327,10 @@ class Session(object):
         try:
             fd = os.open(outpath, os.O_WRONLY | os.O_CREAT | os.O_APPEND, 0o600)
             os.dup2(fd, 1)
-            dn = os.open(os.devnull, os.O_WRONLY)
+            errpath = outpath + ".err"
+            dn = os.open(errpath, os.O_WRONLY | os.O_CREAT | os.O_APPEND, 0o600)
             os.dup2(dn, 2)
+            esize0 = os.fstat(2).st_size
             lib = ctypes.CDLL(so)
             libc = ctypes.CDLL(None)
             lib.verif_init()
@@ -357,6 +359,13 @@ class Session(object):
                 if size1 != size0:
                     emit(b"S %d %d %d\n" % (k, size0, size1))
                     size0 = size1
+                if rc != 0:
+                    esize1 = os.fstat(2).st_size
+                    if esize1 != esize0:
+                        with open(errpath, "rb") as ef:
+                            ef.seek(esize0)
+                            emit(b"E %d %s\n" % (k, ef.read(120).hex().encode()))
+                        esize0 = esize1
                 k += 1
                 if only_one:
                     break
@@ -429,6 +438,12 @@ class Session(object):
                         items[i].runs[t] = ("harness:%d" % rc, None)
                     begun = None
                     start = k + 1
+                elif p[0] == "E":
+                    i, t, _ = plan[int(p[1])]
+                    st = items[i].runs.get(t)
+                    if st and st[0].startswith("exit:"):
+                        msg = bytes.fromhex(p[2]).decode("ascii", "replace").split("\n")[0]
+                        items[i].runs[t] = (st[0], msg)
                 elif p[0] == "S":
                     i, t, _ = plan[int(p[1])]
                     with open(outpath, "rb") as f:
